@@ -189,6 +189,7 @@ def streams_for(prop, seed, tier, boost=1):
     """list of (name, ops, ctx). All randomness from Gen(seed-derived)."""
     T = tier == 'thorough'
     k = (6 if T else 1) * boost
+    boost = boost
     out = []
 
     def G(tag):
@@ -215,7 +216,9 @@ def streams_for(prop, seed, tier, boost=1):
             add('hdec-exhaustive', G('x').hdec_exhaustive())
     elif prop in ('C06', 'C14'):
         add('table', G('table').table_stream(n_tables=12 * k))
+        add('table-big', big_table_stream())
         add('deccat', G('deccat').dec_catalogue())
+        add('conn-evict', evict_stream(G('ev'), 8 * k))
         add('enc', G('enc').enc_stream(n_conn=20 * k))
         add('dec', G('dec').dec_stream(n_conn=30 * k, mal=0.2))
         if T:
@@ -229,7 +232,7 @@ def streams_for(prop, seed, tier, boost=1):
         add('dec-mal', G('dec').dec_stream(n_conn=60 * k, mal=0.55))
         add('dec-wf', G('dec2').dec_stream(n_conn=20 * k, mal=0.0, start_id=3000))
         add('hdec-in-block', ['dnew 1'] + ['ddec 1 1 ' + genmod.hx(bytes([0x00, 0x80 | (len(o.split()[1]) // 2)]) + bytes.fromhex(o.split()[1]) + b'\x00')
-                                          for o in genmod.huff_transition_catalogue() if o.split()[1] != '-' and len(o.split()[1]) // 2 < 127][::(1 if T else 7)])
+                                          for o in genmod.huff_transition_catalogue() if o.split()[1] != '-' and len(o.split()[1]) // 2 < 127][::(1 if (T or boost > 1) else 7)])
         if T:
             add('dec-small', G('x').dec_exhaustive_small())
     elif prop in ('C07', 'C08'):
@@ -240,6 +243,7 @@ def streams_for(prop, seed, tier, boost=1):
         add('enccat', G('enccat').enc_catalogue())
         add('enc', G('enc').enc_stream(n_conn=60 * k))
         add('enc-sizes', genmod.enc_size_stream(G('es'), n=10 * k))
+        add('conn-evict', evict_stream(G('ev'), 12 * k))
         if prop == 'C15':
             add('conn', G('conn').conn_stream(n_conn=15 * k))
             add('deccat', G('deccat').dec_catalogue())
@@ -267,6 +271,34 @@ def streams_for(prop, seed, tier, boost=1):
     elif prop == 'C20':
         add('conn', G('conn').conn_stream(n_conn=10 * k))
     return out
+
+
+def big_table_stream():
+    """tables with more dynamic entries than the static table has (62, 63, 100, 124): every index from 0 to
+    past the end, on HeaderTable directly and through a Decoder"""
+    ops = []
+    hxs = genmod.hx
+    tid = 700
+    for count in (61, 62, 63, 100, 124):
+        tid += 1
+        ops.append('tnew %d' % tid)
+        ops.append('dnew %d 1000000' % tid)
+        blk = b''
+        for i in range(count):
+            ops.append('tadd %d %s -' % (tid, hxs(bytes([i + 1]))))
+            blk += bytes([0x40, 0x01, i + 1, 0x00])
+        ops.append('ddec %d 1 %s' % (tid, hxs(blk)))
+        for i in [0, 1, 61, 62, 63, 61 + count - 1, 61 + count, 62 + count, 63 + count, 127, 128, 200, 255, 256]:
+            ops.append('tget %d %d' % (tid, i))
+            ops.append('dget %d %d' % (tid, i))
+            from refmodel import int_octets
+            ops.append('ddec %d 1 %s' % (tid, hxs(int_octets(i, 7, 0x80))))
+            if i:
+                ops.append('ddec %d 1 %s' % (tid, hxs(int_octets(i, 4, 0x00) + b'\x00')))
+                ops.append('ddec %d 1 %s' % (tid, hxs(int_octets(i, 4, 0x10) + b'\x00')))
+        ops.append('tsearch %d 01 -' % tid)
+        ops.append('tsearch %d %s -' % (tid, hxs(bytes([count]))))
+    return ops
 
 
 def bounds_stream(g, n):
@@ -468,6 +500,8 @@ def judged_fail_on(prop, ops, ctx=None, sig=None):
     impl = runner.run_impl(ops)
     J = judges.JUDGES.get(prop)
     c = dict(ctx or {})
+    if any(r == 'bad-id' or r == 'bad-op' for r in impl):
+        return [], impl          # not a history: an instance was used before it was created (invalid reduction)
     fs = J(ops, impl, c) if J else []
     if sig:
         fs = [f for f in fs if f.sig == sig]
